@@ -35,7 +35,10 @@ class Scenario:
 def gen_values(tape, nmax=4, label="vals", typ=None, allow_mixed=False):
     typ = typ or tape.weighted([("int", 4), ("float", 1), ("str", 1)] + ([("mixed", 1)] if allow_mixed else []),
                                label + "-type")
-    if typ == "mixed":
+    if typ == "float" and allow_mixed and tape.flag(1, 3, label + "-near"):
+        # distinct floats one ulp apart are distinct values
+        pool = tape.perm([0.3, 0.1 + 0.2, 2.5, 1.1 + 2.2, 3.3], label + "-perm")
+    elif typ == "mixed":
         # one argument's values of different types (no two of them equal)
         pool = tape.perm(POOLS["int"][:3] + POOLS["float"][:2] + POOLS["str"][:2], label + "-perm")
     else:
